@@ -345,6 +345,7 @@ pub fn run(ctx: &mut Ctx) {
         return;
     }
     let mut rng = ctx.rng.fork();
+    alias_sites_outside_values(ctx);
     for t in FIXED {
         one_doc(ctx, t, None, &mut rng);
     }
@@ -361,6 +362,39 @@ pub fn run(ctx: &mut Ctx) {
         if round % 6 == 0 {
             let m = docgen::mutate(&mut rng, &text);
             one_doc(ctx, &m, None, &mut rng);
+        }
+    }
+}
+
+/// use sites that are not values: an aliased mapping KEY and the value of a merge key
+fn alias_sites_outside_values(ctx: &mut Ctx) {
+    let int = Ty::Int(true, 32);
+    // F81 (open): the key `*k` is replayed without its use site
+    let text = "names: &k foo\nm:\n  *k : 1\n  bar: 2\n";
+    let ty = Ty::Struct(vec![("names".into(), Ty::String), ("m".into(), Ty::Map(Box::new(int.clone()), Box::new(int.clone())))], false);
+    ctx.direct_evaluations += 1;
+    match deserk::run(text, &ty, &opts()) {
+        Ok(v) => ctx.fail("mismatch-accepted", format!("{text:?}: the key foo was read as an integer: {v:?}"), json!({"kind": "alias_key", "text": text})),
+        Err(e) => {
+            let (er, ed) = err_locs(&e);
+            if !(er.line() == 3 && er.column() == 3 && ed.line() == 1 && ed.column() == 11) {
+                ctx.fail("F81:aliased-key-without-use-site", format!("{text:?}: the error for the aliased key reports use site {}:{} and definition {}:{}; the alias is at 3:3, the anchored node at 1:11", er.line(), er.column(), ed.line(), ed.column()),
+                    json!({"kind": "alias_key", "text": text}));
+            }
+        }
+    }
+    // F82 (open): `<<: *s` with a scalar behind the alias reports the definition site only
+    let text = "s: &s foo\nm:\n  <<: *s\n  a: 1\n";
+    let ty = Ty::Struct(vec![("s".into(), Ty::String), ("m".into(), Ty::Map(Box::new(Ty::String), Box::new(int)))], false);
+    ctx.direct_evaluations += 1;
+    match deserk::run(text, &ty, &opts()) {
+        Ok(v) => ctx.fail("mismatch-accepted", format!("{text:?}: a scalar was merged: {v:?}"), json!({"kind": "merge_scalar", "text": text})),
+        Err(e) => {
+            let (er, ed) = err_locs(&e);
+            if !(er.line() == 3 && ed.line() == 1 && ed.column() == 7) {
+                ctx.fail("F82:merge-of-aliased-scalar-without-use-site", format!("{text:?}: the error reports use site {}:{} and definition {}:{}; the merge entry is on line 3, the anchored scalar at 1:7", er.line(), er.column(), ed.line(), ed.column()),
+                    json!({"kind": "merge_scalar", "text": text}));
+            }
         }
     }
 }
